@@ -1,6 +1,8 @@
 (* Props/C01.v -- C01: Z80 instructions assemble to their Zilog encoding, and only to it. *)
 From Az65 Require Import Base Token Expr ExprParse Linker Asm Arch ArchTables LinkerFacts ArchSpec IsaZ80 Z80Facts Z80Sound Z80Complete.
 From Az65 Require Import LinkerFacts LinkGenFacts.
+From Az65 Require Import IsaGenCommon IsaGenZ80.
+From Az65.Gen Require Import IsaLits.
 
 (* (1) Every path of the Z80 instruction parser (798 rows = every accepted operand pattern), for
        ALL operand bytes, emits bytes that the Zilog decoder -- written independently from the opcode
@@ -55,3 +57,10 @@ Theorem C01_generated_link_arms :
     Linker.apply_link st l d = gen_apply_link (Linker.l_kind l) (Linker.l_off l) v d.
 Proof. exact generated_link_arms_are_model_arms. Qed.
 Print Assumptions C01_generated_link_arms.
+
+(* TRANSLATOR TIE for the opcode bytes: mnemonic by mnemonic, the rows of the model's instruction table place exactly the
+   opcode bytes that the corresponding arm of the Rust parser -- re-read from the source on every run (Gen/IsaLits.v) --
+   pushes, maps to or patches in.  (Which bytes go with which operand pattern is tied by the row-by-row correspondence.) *)
+Theorem C01_rows_use_the_source_opcode_bytes : lits_agree z80_rows z80_op_lits = true.
+Proof. exact z80_rows_use_the_source_opcode_bytes. Qed.
+Print Assumptions C01_rows_use_the_source_opcode_bytes.
